@@ -182,6 +182,10 @@ impl Converter {
 
                 self.end_scope();
 
+                // The binder is in scope in the body only: an index of a sibling term must
+                // not resolve to it.
+                self.remove_unique(unique);
+
                 Term::Lambda {
                     parameter_name: name.into(),
                     body: Rc::new(body),
@@ -246,6 +250,10 @@ impl Converter {
                 let body = self.debruijn_to_name(body)?;
 
                 self.end_scope();
+
+                // The binder is in scope in the body only: an index of a sibling term must
+                // not resolve to it.
+                self.remove_unique(unique);
 
                 Term::Lambda {
                     parameter_name: name.into(),
